@@ -356,6 +356,39 @@ class MetadorDataset(MetadorNode):
         super().__setattr__(key, value)
 
 
+def _skel_guarded_operator(name: str):
+    """Return operator method that is forwarded by the proxy, unless marked as skel_only."""
+    forwarded = getattr(wrapt.ObjectProxy, name)
+
+    def method(self, *args):
+        if name in ("__eq__", "__ne__") and self.acl[NodeAcl.skel_only]:
+            # nodes can still be compared with each other (this does not look at the contents)
+            if not isinstance(args[0], (wrapt.ObjectProxy, h5py.HLObject)):
+                return NotImplemented
+        else:
+            self._guard_acl(NodeAcl.skel_only, name)
+        return forwarded(self, *args)
+
+    method.__name__ = name
+    return method
+
+
+# The proxy forwards operators to the raw dataset. With a numpy operand these end up
+# in its __array__ method (reflected operator of the operand), i.e. yield the contents.
+for _op in ["lt", "le", "eq", "ne", "gt", "ge"] + [
+    f"{pref}{op}"
+    for op in [
+        "add", "sub", "mul", "matmul", "truediv", "floordiv", "mod", "divmod", "pow",
+        "lshift", "rshift", "and", "xor", "or",
+    ]  # fmt: skip
+    for pref in ["", "r"]
+]:
+    if hasattr(wrapt.ObjectProxy, f"__{_op}__"):
+        setattr(MetadorDataset, f"__{_op}__", _skel_guarded_operator(f"__{_op}__"))
+# (defining __eq__ would otherwise make the nodes unhashable)
+MetadorDataset.__hash__ = wrapt.ObjectProxy.__hash__  # type: ignore
+
+
 # TODO: can this be done somehow with wrapt.decorator but still without boilerplate?
 # problem is it wants a function, but we need to look it up by name first
 # so we hand-roll the decorator for now.
